@@ -184,6 +184,10 @@ func (c *conn) receive() (err error) {
 	default:
 		return
 	}
+	if len(body) < 4 {
+		err = core.InvalidResponseError{Response: body}
+		return
+	}
 	index, ok := parseHeader(body[:4])
 	body = body[4:]
 	if !ok {
